@@ -498,15 +498,40 @@ def register_concentric(Rg):
     def post_hint(E, vars):
         o = E.top_old
         c, u, hh, r1, r2 = G_(E, o)
+        f = o["frustum_cone"]
+        h = R(E.sqrt(Sym(dist2(f.fields["c1"], f.fields["c2"]), "real"), nonneg_known=True))
+        E.prove("VolSphereFrustumConeIntersection.calc_concentric_intersect_volume/step/centre-distance-is-the-height", h == hh, "annotation")
         if "c13-tau" in E.ghost:
             tau = E.ghost["c13-tau"]
             for nm in ("frustum-inside-the-sphere", "frustum-higher-than-the-sphere", "frustum-lower-than-the-sphere"):
                 use(E, "taper-case/" + nm, r1, r2, hh, tau)
 
+    def concentric_pre(E, v, o):
+        """the sphere is centred on one end of the frustum with that end's radius (exactly: tolerance bands collapsed), positive radii,
+        distinct end centres"""
+        s, f = v["sphere"], v["frustum_cone"]
+        cs, rs = [R(x) for x in s.fields["center"].items], R(s.fields["radius"])
+        c1, c2 = [R(x) for x in f.fields["c1"].items], [R(x) for x in f.fields["c2"].items]
+        r1, r2 = R(f.fields["r1"]), R(f.fields["r2"])
+        at1 = z3.And(rs == r1, *[a == b for a, b in zip(cs, c1)])
+        at2 = z3.And(rs == r2, *[a == b for a, b in zip(cs, c2)])
+        return z3.And(z3.Or(at1, at2), r1 > 0, r2 > 0, dist2(f.fields["c1"], f.fields["c2"]) > 0)
+
+    def concentric_post(E, v, o):
+        """stated on the OBJECTS (usable at call sites): the sphere's radius is one of the end radii, the other end's radius is
+        r1 + r2 - rs, the height is the distance of the end centres (the very root np.linalg.norm produced)"""
+        s, f = o["sphere"], o["frustum_cone"]
+        rs = R(s.fields["radius"])
+        r1, r2 = R(f.fields["r1"]), R(f.fields["r2"])
+        h = R(E.sqrt(Sym(dist2(f.fields["c1"], f.fields["c2"]), "real"), nonneg_known=True))
+        return R(v["result"]) == V_sf(rs, r1 + r2 - rs, h)
+
     Rg.add(f"{VO}:VolSphereFrustumConeIntersection.calc_concentric_intersect_volume", prop="C13",
            variants={"sphere-at-c1-end/widening": _concentric_setup("c1", False), "sphere-at-c2-end/widening": _concentric_setup("c2", False),
                      "sphere-at-c1-end/taper": _concentric_setup("c1", True), "sphere-at-c2-end/taper": _concentric_setup("c2", True)},
-           ensures=[("equals-integral-of-the-smaller-profile", lambda E, v, o: R(v["result"]) == V_sf(R(v["r1"]), R(v["r2"]), R(v["hh"])))],
+           requires=[("sphere-shares-centre-and-radius-with-one-end-of-the-frustum", concentric_pre)],
+           returns="real",
+           ensures=[("equals-integral-of-the-smaller-profile", concentric_post)],
            options=dict(exact_tolerances=True, globals_override={"eps": 0},
                         hints={"post/equals-integral-of-the-smaller-profile": post_hint},
                         asserts_after={"h": [("height-is-the-centre-distance", h_is_hh)],
